@@ -14,7 +14,7 @@ Exhs  == {"true", "false", "conditional", "omitted"}
 
 BitsOfN(x, w) == {k \in 0..w : (x \div 2^k) % 2 = 1}          \* w+1 bits: 2^w is representable (out of range)
 DSeq(x, w) == SetToSeq(BitsOfN(x, w))
-V(k, d, cfg, form) == [name |-> "V" \o ToString(k), d |-> d, cfg |-> cfg, form |-> form]
+V(k, d, cfg, form) == [name |-> "V" \o ToString(k), d |-> d, cfg |-> cfg, form |-> form, doc |-> FALSE]
 AscSeq(S) == SortSeq(SetToSeq(S), <)
 Order(S, ord) == LET a == AscSeq(S) n == Len(a) IN
                  CASE ord = "asc"  -> a
@@ -52,6 +52,14 @@ GatedVariants == /\ ~done
                        [] shape = 6 -> base \o <<V(3, DSeq(3, 2), "off", "lit"), V(4, DSeq(4, 2), "off", "lit")>>]
          /\ done' = TRUE
 
+(* the #[cfg] gate is not the variant's first attribute (a doc comment precedes it) *)
+DocGated == /\ ~done
+            /\ \E exh \in Exhs : \E g \in {"on", "off"} : \E size \in {3, 4} :
+                 LET base == Plain(2, exh, 0..(size - 1), "asc").variants IN
+                 e' = [name |-> "E", n |-> 2, exh |-> exh,
+                       variants |-> [k \in 1..size |-> IF k = size THEN [base[k] EXCEPT !.cfg = g, !.doc = TRUE] ELSE base[k]]]
+            /\ done' = TRUE
+
 (* storage-class boundaries: discriminants 0, 1, 2^n - 1 (all ones), 2^n (bit n), top bit *)
 Ones(n) == [k \in 1..n |-> k - 1]
 Wide == /\ ~done
@@ -74,7 +82,7 @@ BadWidth == /\ ~done
             /\ \E n \in {0, 65, 128} : e' = [name |-> "E", n |-> n, exh |-> "false", variants |-> <<V(0, <<>>, "none", "lit")>>]
             /\ done' = TRUE
 
-Next == Small \/ Forms \/ GatedVariants \/ Wide \/ Counts \/ BadWidth
+Next == Small \/ Forms \/ GatedVariants \/ DocGated \/ Wide \/ Counts \/ BadWidth
 
 (* design-level theorems about the rule, checked on every enumerated declaration *)
 Theorems == (done /\ EnumValid(e) /\ e.n <= 8) => (EnumInverse(e) /\ ExhaustiveTotal(e) /\ ErrCarriesRaw(e))
